@@ -179,6 +179,14 @@ fn reader_battery() -> Vec<&'static str> {
         r#"SEARCH CONCEPT "Secret""#,
         r#"HISTORY SPACE"#,
         r#"CHANGES AFTER SEQ 0"#,
+        // hop-quantified walks: forward, backward, open, counted, negated
+        r#"FIND(?b.name) WHERE { ?a CONCEPT {name: "Alice"} (?a, "prefers"{1,3}, ?b) } ORDER BY ?b.name"#,
+        r#"FIND(?a.name) WHERE { ?c CONCEPT {name: "Bob"} (?a, "prefers"{1,3}, ?c) } ORDER BY ?a.name"#,
+        r#"FIND(?a.name) WHERE { ?c CONCEPT {name: "Alice"} (?a, "prefers"{1,2}, ?c) } ORDER BY ?a.name"#,
+        r#"FIND(?b.name) WHERE { ?a CONCEPT {name: "Carol"} (?a, "prefers"{1,2}, ?b) } ORDER BY ?b.name"#,
+        r#"FIND(?a.name, ?b.name) WHERE { (?a, "prefers"{1,2}, ?b) } ORDER BY ?a.name, ?b.name"#,
+        r#"FIND(COUNT(?b)) WHERE { ?a CONCEPT {name: "Alice"} (?a, "prefers"{1,2}, ?b) }"#,
+        r#"FIND(?e.name) WHERE { ?e CONCEPT {} ?a CONCEPT {name: "Alice"} NOT { (?a, "prefers"{1,3}, ?e) } } ORDER BY ?e.name"#,
     ]
 }
 
@@ -232,11 +240,24 @@ fn run_non_interference(case: &Case, rep: &mut RunReport) -> Result<(), Violatio
         // build the statement once, symbolically, then instantiate per store
         let (template, refs): (String, Vec<(bool, usize)>) = match (high, kind % 4) {
             (false, 0) | (false, 1) => (format!("CREATE CONCEPT ?x {{ TYPE \"Person\" NAME \"{}\" }}", low_names[rng.usize(low_names.len())]), vec![]),
+            // low claims run "upwards" (a <= b in creation order), hidden claims
+            // between two low concepts "downwards", so a tuple is never shared by
+            // a visible and a hidden claim (the clone would classify it differently)
             (false, _) => match (pick(&mut rng, &low_full), pick(&mut rng, &low_full)) {
-                (Some(a), Some(b)) => ("ASSERT (:s, \"prefers\", :o) { by: :s, mode: \"stated\", confidence: 0.8 }".to_string(), vec![(false, a), (false, b)]),
+                (Some(a), Some(b)) => ("ASSERT (:s, \"prefers\", :o) { by: :s, mode: \"stated\", confidence: 0.8 }".to_string(), vec![(false, a.min(b)), (false, a.max(b))]),
                 _ => (format!("CREATE CONCEPT ?x {{ TYPE \"Person\" NAME \"{}\" }}", low_names[i % 4]), vec![]),
             },
             (true, 0) | (true, 1) => (format!("CREATE CONCEPT ?x {{ TYPE \"Person\" NAME \"{}\" }}", high_names[rng.usize(high_names.len())]), vec![]),
+            (true, 2) if low_full.len() >= 2 => {
+                // a hidden edge between two visible concepts: walks must not cross it
+                let (a, b) = (rng.usize(low_full.len()), rng.usize(low_full.len()));
+                if a == b {
+                    (format!("CREATE CONCEPT ?x {{ TYPE \"Person\" NAME \"{}\" }}", high_names[i % 3]), vec![])
+                } else {
+                    rep.probe("hidden_edges_between_visible_concepts", 1);
+                    ("ASSERT (:s, \"prefers\", :o) { by: :s, mode: \"stated\", confidence: 0.9 }".to_string(), vec![(false, a.max(b)), (false, a.min(b))])
+                }
+            }
             (true, _) => match (pick(&mut rng, &low_full), pick(&mut rng, &high_full)) {
                 // a high claim may reference low elements; a low statement never references high ones
                 (Some(a), Some(b)) => ("ASSERT (:s, \"prefers\", :o) { by: :s, mode: \"stated\", confidence: 0.9 }".to_string(), vec![(false, a), (true, b)]),
@@ -580,9 +601,86 @@ fn run_control_plane_only(case: &Case, rep: &mut RunReport) -> Result<(), Violat
     let mut reg = Registry::default();
     let mut grng = Rng::stream(case.gen_seed, "stmts");
     let mut sig = Sig::default();
-    for i in 0..case.n {
-        let st = sgen::generate(&mut grng, &reg);
-        let who = grng.usize(sessions.len());
+    let mut purge_stub: Option<Violation> = None;
+    let mut hrng = Rng::stream(case.gen_seed, "host");
+    // Half of the runs open with a scripted derivation chain: an Evidence
+    // record, an assertion citing it (classification and lineage derived from
+    // it at creation), a host relabel of either end, then session commands that
+    // change the derived assertion. `$E` / `$A` name the newest evidence / assertion.
+    let mut script: std::collections::VecDeque<(String, Option<&'static str>)> = Default::default();
+    if hrng.bool() {
+        script.push_back((r#"CREATE EVIDENCE ?e { SET FIELDS {evidence_class: "Document", payload: "the source"} }"#.into(), None));
+        if hrng.bool() {
+            script.push_back(("HOST $E".into(), Some("secret")));
+        }
+        script.push_back((
+            r#"MUTATE {
+  CREATE CONCEPT ?s { TYPE "Person" NAME "Alice" }
+  CREATE CONCEPT ?o { TYPE "Preference" NAME "Dark" }
+  ENSURE PROPOSITION ?p (?s, "prefers", ?o)
+  CREATE ASSERTION ?a { SET FIELDS { proposition: ?p, asserted_by: ?s, stance: "support", mode: "inferred", confidence: 0.6 } SET STRUCTURAL {("evidence", {id: "$E"}) {role: "support"}} }
+}"#
+            .into(),
+            None,
+        ));
+        match hrng.below(3) {
+            0 => script.push_back(("HOST $A".into(), Some("internal"))),
+            1 => script.push_back(("HOST $E".into(), Some(*hrng.pick(&["secret", "internal"])))),
+            _ => script.push_back(("HOST $A".into(), Some("public"))),
+        }
+        script.push_back((
+            match hrng.below(3) {
+                0 => r#"RETRACT ASSERTION "$A""#.to_string(),
+                1 => r#"ARCHIVE "$A""#.to_string(),
+                _ => r#"MUTATE {
+  CREATE ASSERTION ?n { SET FIELDS { proposition: "$P", asserted_by: "$S", stance: "support", mode: "stated", confidence: 0.9 } }
+  SUPERSEDE ASSERTION "$A" BY ?n
+}"#
+                .to_string(),
+            },
+            None,
+        ));
+        rep.probe("scripted_derivation_chains", 1);
+    }
+    let mut i = 0usize;
+    while i < case.n {
+        let scripted = script.pop_front().map(|(t, l)| {
+            let fill = |t: &str| {
+                t.replace("$E", reg.evidence.last().map(|s| s.as_str()).unwrap_or("E-999"))
+                    .replace("$A", reg.assertions.last().map(|s| s.as_str()).unwrap_or("A-999"))
+                    .replace("$P", reg.props.last().map(|s| s.as_str()).unwrap_or("P-999"))
+                    .replace("$S", reg.persons.last().map(|s| s.as_str()).unwrap_or("C-999"))
+            };
+            (fill(&t), l)
+        });
+        if let Some((t, Some(label))) = &scripted {
+            if let Ok(eid) = t.trim_start_matches("HOST ").parse::<ElementId>() {
+                if block(sessions[0].classify(DEFAULT_SPACE, eid, label)).is_ok() {
+                    rep.probe("host_relabelled_an_element", 1);
+                }
+            }
+            continue;
+        }
+        // the host's control plane relabels elements now and then (the one
+        // legitimate way a governance block changes): afterwards a derived
+        // element's stored block may differ from what a fresh derivation from
+        // its inputs would give, and session commands must leave it alone
+        if hrng.chance(1, 3) {
+            let known: Vec<String> = reg.versions.keys().cloned().collect();
+            if !known.is_empty() {
+                let id = &known[hrng.usize(known.len())];
+                let label = *hrng.pick(&["secret", "internal", "public", "secret"]);
+                if let Ok(eid) = id.parse::<ElementId>() {
+                    if block(sessions[0].classify(DEFAULT_SPACE, eid, label)).is_ok() {
+                        rep.probe("host_relabelled_an_element", 1);
+                    }
+                }
+            }
+        }
+        let (st, who) = match scripted {
+            Some((text, _)) => (sgen::Stmt { text, params: serde_json::json!({}), dry_run: false, family: "scripted".into() }, 0),
+            None => (sgen::generate(&mut grng, &reg), grng.usize(sessions.len())),
+        };
         let known: Vec<String> = reg.versions.keys().cloned().collect();
         let before = gov_dump(&nexus)?;
         let blocks_before = gov_blocks(&nexus, &known);
@@ -607,6 +705,17 @@ fn run_control_plane_only(case: &Case, rep: &mut RunReport) -> Result<(), Violat
         for (id, b) in &blocks_before {
             if let Some(a) = blocks_after.get(id) {
                 if a != b {
+                    // PURGE replaces the whole element by an identity stub whose
+                    // governance block is the purge marker (recorded finding); it is
+                    // reported at the end so that it hides nothing else in the run
+                    let stub = st.text.contains("PURGE ") && serde_json::from_str::<Json>(a).map(|j| j["purged"] == true).unwrap_or(false);
+                    if stub {
+                        rep.probe("purge_replaced_a_governance_block", 1);
+                        if purge_stub.is_none() {
+                            purge_stub = Some(violation!("c19.governance-block-changed.purge-stub", "{ctx}: the governance block of {id} changed from {b} to {a}"));
+                        }
+                        continue;
+                    }
                     return Err(violation!("c19.governance-block-changed", "{ctx}: the governance block of {id} changed from {b} to {a}"));
                 }
             }
@@ -626,11 +735,15 @@ fn run_control_plane_only(case: &Case, rep: &mut RunReport) -> Result<(), Violat
             }
         }
         rep.probe("session_commands_checked", 1);
+        i += 1;
     }
     rep.evaluations = case.n as u64;
     rep.nontrivial_sigs = vec![sig.0 ^ case.gen_seed];
     rep.trace_hash = sig.0 ^ sim.full_signature();
     rep.sample = Some(serde_json::json!({"mode": "control-plane-only", "commands": case.n}));
+    if let Some(v) = purge_stub {
+        return Err(v);
+    }
     Ok(())
 }
 
